@@ -27,9 +27,9 @@ CHECKS = {
  "C07": ("byte-equality monitor over repeated injector runs (histories mixing library, -f, -d, -p)",
          "The C06 corpus (generated classes and real-world sources) plus annotation-free files, comments repeating a key and the parseable-but-awkward shapes of C19 is processed 2-5 times with randomly mixed entry points; the bytes after run n+1 must equal those after run n, and annotation-free files must never change. The check is vacuous-proofed by requiring that >=90% of annotated files were actually modified by run 1.",
          "Idempotence is judged independently of correctness; SHA/bytes comparison only.", "§3 C07"),
- "C19": ("fault-injected directory workloads against the built CLI; snapshot comparison + C06 oracle per processable file",
-         "Directories mixing processable files with syntactically broken, truncated, empty and binary .go files, parseable-but-awkward files (no tag literal, malformed @tag, grouped/local/generic types, interpreted/empty literals), non-Go files, sub-directories and a directory named x.go are processed with -f/-d/-p/-p '*'; exit status and panic text are observed, unprocessable files must be byte-identical and every parseable file must equal the documented merge (so a crash or early stop that leaves later files un-injected is detected). The thorough tier adds a coverage-guided fuzz target feeding arbitrary bytes named *.go to the injector.",
-         "Faults are file-content faults (no I/O error injection); files in sub-directories are only required not to be corrupted.", "§3 C19"),
+ "C19": ("fault-injected directory workloads against the built CLI (content faults, permission faults at open as an unprivileged process, degenerate invocations); snapshot comparison + C06 oracle per processable file",
+         "Directories mixing processable files with syntactically broken, truncated, empty and binary .go files, parseable-but-awkward files (no tag literal, malformed @tag, grouped/local/generic types, interpreted/empty literals), non-Go files, sub-directories and a directory named x.go are processed with -f/-d/-p/-p '*'; exit status and panic text are observed, unprocessable files must be byte-identical and every parseable file must equal the documented merge (so a crash or early stop that leaves later files un-injected is detected). I/O faults are injected at the open system call: the CLI runs as an unprivileged user over directories holding unreadable (mode 0000) and read-only (0444) files among processable ones — the unreadable file must stay byte-identical, the read-only one byte-identical or correctly injected, every other file must be processed, no crash; and degenerate invocations (missing directory, a file given as directory, malformed or unmatched glob patterns, missing file, empty arguments, no arguments) must neither crash nor touch a bystander. The thorough tier adds a coverage-guided fuzz target feeding arbitrary bytes named *.go to the injector.",
+         "I/O faults are permission faults at open (a failing write in the middle of a file is outside the statement: the tool rewrites in place); files in sub-directories are only required not to be corrupted.", "§3 C19"),
  "C09": ("online reference-model monitor, bounded-exhaustive operation sequences + long random sequences",
          "The real LRUCache is stepped in lock-step with a 30-line reference LRU; return value, Len, removal-callback log and full recency order (Dump) are compared after every single operation. All sequences up to the length bound over a 10-letter alphabet on capacities 0..4 are enumerated completely; long random sequences cross the map-rebuild threshold thousands of times; values of every dynamic kind (nil interface, typed nil, uncomparable) go through Delete / eviction / overwrite; and a fault is injected at the hook: a removal callback that panics on every k-th invocation while the caller recovers, after which the cache must still follow the model.",
          "Trusts the reference model's reading of the statement (Store on a live key replaces and touches, no callback on replacement); sequences longer than the bound are sampled, not enumerated.", "§3 C09"),
